@@ -227,10 +227,68 @@ def all_work(chunk):
     return t
 
 
+def cfg_all_work(chunk):
+    """--all for a nickname whose configuration section already lists accounts: for every account type the server lists
+    as ACTIVE the request must ask the server's accounts, not the configured ones.  (Types the response does not
+    mention at all keep their configured accounts on the pinned tree; that interplay is not pinned down and every
+    response here has an ACTIVE account of each configured type.)"""
+    import importlib
+
+    from ofxtools import config
+
+    private_xdg()
+    t = Tally()
+    net = F.Net()
+    net.install()
+    try:
+        for cmd, seq in chunk:
+            userfile = config.USERCONFIGDIR / "ofxget.cfg"
+            userfile.parent.mkdir(parents=True, exist_ok=True)
+            userfile.write_text("[mybank]\nurl = " + URL + "\nuser = jdoe\nbankid = 999999999\nbrokerid = old.broker\nchecking = 9001, 9002\nsavings = 9101\ncreditcard = 9401\ninvestment = 9501\n")
+            og = importlib.reload(ofxget())
+            infos = [acctinfo_term(i, ty, st) for i, (ty, st) in enumerate(seq)]
+            got = []
+
+            def handler(ex):
+                rq = F.read_request(ex.body)
+                got.append((rq, ex))
+                if rq["kind"] == "accounts":
+                    return F.ok(F.generic_response("accounts", rq["trnuids"], acctinfos=infos))
+                return F.ok(F.generic_response("statements", rq["trnuids"]))
+
+            net.handler = handler
+            argv = [cmd, "mybank", "--password", "pw", "--all", "--skipprofile"]
+            active = [(ty, f"{ty[:2]}{i}") for i, (ty, st) in enumerate(seq) if st == "ACTIVE" and (cmd == "stmt" or ty != "investment")]
+            case = {"part": "cfg-all", "cmd": cmd, "seq": [list(x) for x in seq]}
+            sig = f"C19|{cmd}|all-with-configured-accounts"
+            t.count("evaluations")
+            t.count("all-runs")
+            t0 = c06.now_ms()
+            try:
+                run_cli(argv)
+            except Exception as e:
+                t.fail(f"{sig}|raises-{type(e).__name__}", case, f"{type(e).__name__}: {str(e)[:150]}")
+                continue
+            finally:
+                userfile.unlink()
+            t1 = c06.now_ms()
+            stm = [g for g in got if g[0]["kind"] == "statements"]
+            if len(stm) != 1:
+                t.fail(f"{sig}|wrong-number-of-requests", case, str([g[0]["kind"] for g in got]))
+                continue
+            exp = expected_request(cmd, active, (None, None, None), {}, "jdoe", "pw")
+            if compare_request(t, sig, case, stm[0][1].body, exp, t0, t1):
+                t.outcome("cfg-all-ok")
+        importlib.reload(ofxget())
+    finally:
+        net.uninstall()
+    return t
+
+
 def dispatch(chunk):
     t = Tally()
     for kind, job in chunk:
-        t.merge(dry_work([job]) if kind == "dry" else all_work([job]))
+        t.merge(dry_work([job]) if kind == "dry" else cfg_all_work([job]) if kind == "cfgall" else all_work([job]))
     return t
 
 
@@ -256,6 +314,8 @@ def run(ctx):
         for fs in itertools.combinations(allflags, r):
             jobs.append(("dry", ("stmt", base, nd, fs)))
             jobs.append(("dry", ("stmt", base, (DATE_TEXTS[1], DATE_TEXTS[2], None), fs)))
+            jobs.append(("dry", ("stmt", base, (DATE_TEXTS[2], DATE_TEXTS[1], DATE_TEXTS[3]), fs)))
+            jobs.append(("dry", ("stmt", base, (None, None, DATE_TEXTS[4]), fs)))
     kinds = [(ty, st) for ty in TYPES for st in STATUSES]
     seqs = [()] + [(k,) for k in kinds] + list(itertools.product(kinds, repeat=2))
     act = [(ty, "ACTIVE") for ty in TYPES]
@@ -270,6 +330,15 @@ def run(ctx):
     for s in seqs:
         if len(s) <= 2 or ctx.thorough:
             jobs.append(("all", ("stmtend", s)))
+    # a configured nickname: every ordering of one ACTIVE account per configured type, plus inactive ones in between
+    import itertools as _it
+
+    core = [("checking", "ACTIVE"), ("savings", "ACTIVE"), ("creditcard", "ACTIVE"), ("investment", "ACTIVE")]
+    for perm in _it.permutations(core):
+        jobs.append(("cfgall", ("stmt", perm)))
+        jobs.append(("cfgall", ("stmt", (perm[0], ("checking", "AVAIL"), perm[1], ("creditcard", "PEND"), perm[2], perm[3], ("checking", "ACTIVE")))))
+    for perm in _it.permutations(core[:3]):
+        jobs.append(("cfgall", ("stmtend", perm + (("investment", "ACTIVE"),))))
     tally = ctx.pmap(dispatch, jobs)
     if tally.counts.get("dry-runs", 0) < 900 or tally.counts.get("all-runs", 0) < 500:
         raise HarnessError(f"vacuous: {tally.counts}")
@@ -286,7 +355,8 @@ def run(ctx):
         "each date option alone x 4 notations, all 27 combinations of 3 date texts over (-s,-e,-a), every non-empty subset of the 4 include flags (with and without dates); printed request read by the "
         "reference reader and compared with the expected request; B: `stmt --all` / `stmtend --all` against the scripted server for every account sequence of length <=2 over 6 types x 3 statuses"
         + (", every ACTIVE-only sequence of length 3 and a seed-chosen quarter of the length-3 multisets" if ctx.quick else " and every sequence of length 3 (5832)") +
-        "; the statement request received must ask exactly the ACTIVE accounts; every run is a distinct command line / response",
+        "; + the same for a nickname whose configuration already lists (other) accounts, bank id and broker id, over all orderings of one ACTIVE account per type with inactive ones in between; the statement "
+        "request received must ask exactly the ACTIVE accounts; every run is a distinct command line / response",
         "dry_runs": tally.counts["dry-runs"],
         "all_runs": tally.counts["all-runs"],
         "exhaustive": True,
@@ -304,7 +374,7 @@ def replay(ctx, case):
         private_xdg()
         print(run_cli(case["argv"]))
         return False
-    t = all_work([(case["cmd"], tuple(tuple(x) for x in case["seq"]))])
+    t = (cfg_all_work if case["part"] == "cfg-all" else all_work)([(case["cmd"], tuple(tuple(x) for x in case["seq"]))])
     for sig, (n, c, d) in sorted(t.fails.items()):
         print(" ", sig, "|", d)
     return bool(t.fails)
